@@ -1,7 +1,168 @@
-(* C10 — all backends give bit-identical results.  Pinned statements only. *)
-From PV Require Import Base.MachineInt Model.Znx Proofs.C10Avx.
+(* C10 — all backends give bit-identical results.  Pinned statements only.
+   Lane convention (Model/C10AvxLanes.v): a 64-bit lane is its signed value; `wadd 64`, `wsub 64`, `shl 64`, `asr`
+   are the wrapping i64 operations of the scalar reference kernels (Model/Znx.v). *)
+From PV Require Import Base.MachineInt Model.Znx Model.C10AvxLanes
+  Proofs.C10Avx Proofs.C10Kernels Proofs.C10Simd.
 Open Scope Z_scope.
 
 Theorem C10_land_mask_mod : forall b x : Z, 0 <= b -> Z.land x (2 ^ b - 1) = x mod 2 ^ b.
 Proof. exact land_mask_mod. Qed.
 Print Assumptions C10_land_mask_mod.
+
+(* xor/sub sign extension on a b-bit value *)
+Theorem C10_lxor_sign : forall b v : Z, 1 <= b -> 0 <= v < 2 ^ b ->
+  Z.lxor v (2 ^ (b - 1)) = if v <? 2 ^ (b - 1) then v + 2 ^ (b - 1) else v - 2 ^ (b - 1).
+Proof. exact lxor_sign. Qed.
+Print Assumptions C10_lxor_sign.
+
+(* logical shift right of the bit pattern, OR-ed with the sign fill, is the arithmetic shift (floor division) *)
+Theorem C10_lsr_fill_asr : forall k y : Z, 1 <= k <= 63 -> in_range 64 y ->
+  mm_or (of_u (Z.shiftr (to_u y) k)) (mm_and (mm_cmpgt mm_setzero y) (- 2 ^ (64 - k))) = y / 2 ^ k.
+Proof. exact lsr_fill_asr. Qed.
+Print Assumptions C10_lsr_fill_asr.
+
+(* ---- digit / carry helpers (normalize_consts_avx + get_digit_avx / get_carry_avx) ---- *)
+Theorem C10_avx_digit_eq_ref : forall b x : Z, 1 <= b <= 63 -> digit_avx b x = get_digit 64 b x.
+Proof. exact avx_digit_eq_ref. Qed.
+Print Assumptions C10_avx_digit_eq_ref.
+
+Theorem C10_avx_carry_eq_ref : forall b x d : Z, 1 <= b <= 63 -> carry_avx b x d = get_carry 64 b x d.
+Proof. exact avx_carry_eq_ref. Qed.
+Print Assumptions C10_avx_carry_eq_ref.
+
+(* ---- normalisation kernels: lane function = scalar kernel, every lane value, 1 <= b <= 63, 0 <= lsh < b ---- *)
+Theorem C10_avx_first_step_carry_only_eq_ref : forall b lsh x : Z, 1 <= b <= 63 -> 0 <= lsh < b ->
+  first_step_carry_only_avx b lsh x = first_step_carry_only 64 b lsh x.
+Proof. exact avx_first_step_carry_only_eq_ref. Qed.
+Print Assumptions C10_avx_first_step_carry_only_eq_ref.
+
+Theorem C10_avx_first_step_assign_eq_ref : forall b lsh x : Z, 1 <= b <= 63 -> 0 <= lsh < b ->
+  first_step_assign_avx b lsh x = first_step_assign 64 b lsh x.
+Proof. exact avx_first_step_assign_eq_ref. Qed.
+Print Assumptions C10_avx_first_step_assign_eq_ref.
+
+Theorem C10_avx_first_step_eq_ref : forall (ov : bool) (b lsh x a : Z), 1 <= b <= 63 -> 0 <= lsh < b ->
+  first_step_avx ov b lsh x a = first_step 64 ov b lsh x a.
+Proof. exact avx_first_step_eq_ref. Qed.
+Print Assumptions C10_avx_first_step_eq_ref.
+
+Theorem C10_avx_middle_step_carry_only_eq_ref : forall b lsh x c : Z, 1 <= b <= 63 -> 0 <= lsh < b ->
+  middle_step_carry_only_avx b lsh x c = middle_step_carry_only 64 b lsh x c.
+Proof. exact avx_middle_step_carry_only_eq_ref. Qed.
+Print Assumptions C10_avx_middle_step_carry_only_eq_ref.
+
+Theorem C10_avx_middle_step_assign_eq_ref : forall b lsh x c : Z, 1 <= b <= 63 -> 0 <= lsh < b ->
+  middle_step_assign_avx b lsh x c = middle_step_assign 64 b lsh x c.
+Proof. exact avx_middle_step_assign_eq_ref. Qed.
+Print Assumptions C10_avx_middle_step_assign_eq_ref.
+
+Theorem C10_avx_middle_step_eq_ref : forall (ov : bool) (b lsh x a c : Z), 1 <= b <= 63 -> 0 <= lsh < b ->
+  middle_step_avx ov b lsh x a c = middle_step 64 ov b lsh x a c.
+Proof. exact avx_middle_step_eq_ref. Qed.
+Print Assumptions C10_avx_middle_step_eq_ref.
+
+Theorem C10_avx_middle_step_sub_eq_ref : forall b lsh x a c : Z, 1 <= b <= 63 -> 0 <= lsh < b ->
+  middle_step_sub_avx b lsh x a c = middle_step_sub 64 b lsh x a c.
+Proof. exact avx_middle_step_sub_eq_ref. Qed.
+Print Assumptions C10_avx_middle_step_sub_eq_ref.
+
+Theorem C10_avx_final_step_assign_eq_ref : forall b lsh x c : Z, 1 <= b <= 63 -> 0 <= lsh < b ->
+  final_step_assign_avx b lsh x c = final_step_assign 64 b lsh x c.
+Proof. exact avx_final_step_assign_eq_ref. Qed.
+Print Assumptions C10_avx_final_step_assign_eq_ref.
+
+Theorem C10_avx_final_step_eq_ref : forall (ov : bool) (b lsh x a c : Z), 1 <= b <= 63 -> 0 <= lsh < b ->
+  final_step_avx ov b lsh x a c = final_step 64 ov b lsh x a c.
+Proof. exact avx_final_step_eq_ref. Qed.
+Print Assumptions C10_avx_final_step_eq_ref.
+
+Theorem C10_avx_final_step_sub_eq_ref : forall b lsh x a c : Z, 1 <= b <= 63 -> 0 <= lsh < b ->
+  final_step_sub_avx b lsh x a c = final_step_sub 64 b lsh x a c.
+Proof. exact avx_final_step_sub_eq_ref. Qed.
+Print Assumptions C10_avx_final_step_sub_eq_ref.
+
+(* lsh of extract_digit_addmul is independent of the radix: any shift count 0..63 *)
+Theorem C10_avx_extract_digit_addmul_eq_ref : forall b lsh r s : Z, 1 <= b <= 63 -> 0 <= lsh <= 63 ->
+  extract_digit_addmul_avx b lsh r s = extract_digit_addmul 64 b lsh r s.
+Proof. exact avx_extract_digit_addmul_eq_ref. Qed.
+Print Assumptions C10_avx_extract_digit_addmul_eq_ref.
+
+Theorem C10_avx_normalize_digit_eq_ref : forall b r s : Z, 1 <= b <= 63 ->
+  normalize_digit_avx b r s = normalize_digit 64 b r s.
+Proof. exact avx_normalize_digit_eq_ref. Qed.
+Print Assumptions C10_avx_normalize_digit_eq_ref.
+
+(* ---- mul.rs: |k| <= 63 is the kernels' contract (debug_assert!(k <= 63) / assert!((1..=63).contains(&kp))) ---- *)
+Theorem C10_avx_mul_power_of_two_eq_ref : forall k x : Z, -63 <= k <= 63 -> in_range 64 x ->
+  mul_power_of_two_avx k x = mul_power_of_two 64 k x.
+Proof. exact avx_mul_power_of_two_eq_ref. Qed.
+Print Assumptions C10_avx_mul_power_of_two_eq_ref.
+
+Theorem C10_avx_mul_add_power_of_two_eq_ref : forall k y x : Z, -63 <= k <= 63 -> in_range 64 x ->
+  mul_add_power_of_two_avx k y x = mul_add_power_of_two 64 k y x.
+Proof. exact avx_mul_add_power_of_two_eq_ref. Qed.
+Print Assumptions C10_avx_mul_add_power_of_two_eq_ref.
+
+(* ---- add / sub / neg ---- *)
+Theorem C10_avx_add_eq_ref : forall a b : Z, add_avx a b = wadd 64 a b.
+Proof. exact avx_add_eq_ref. Qed.
+Print Assumptions C10_avx_add_eq_ref.
+Theorem C10_avx_sub_eq_ref : forall a b : Z, sub_avx a b = wsub 64 a b.
+Proof. exact avx_sub_eq_ref. Qed.
+Print Assumptions C10_avx_sub_eq_ref.
+Theorem C10_avx_sub_negate_assign_eq_ref : forall r a : Z, sub_negate_assign_avx r a = wsub 64 a r.
+Proof. exact avx_sub_negate_assign_eq_ref. Qed.
+Print Assumptions C10_avx_sub_negate_assign_eq_ref.
+Theorem C10_avx_negate_eq_ref : forall v : Z, negate_avx v = wneg 64 v.
+Proof. exact avx_negate_eq_ref. Qed.
+Print Assumptions C10_avx_negate_eq_ref.
+
+(* ---- loop skeleton: span = n >> 2 chunks of 4 lanes, then the scalar kernel on the tail ---- *)
+Theorem C10_simd_loop_split : forall (A : Type) (l : list A),
+  let n := length l in let span := Nat.shiftr n 2 in
+  l = firstn (4 * span) l ++ skipn (Nat.shiftl span 2) l /\
+  length (firstn (4 * span) l) = (4 * span)%nat /\
+  length (skipn (Nat.shiftl span 2) l) = (n mod 4)%nat /\
+  (n mod 4 < 4)%nat /\ (4 * span + n mod 4 = n)%nat.
+Proof. exact (@simd_loop_split). Qed.
+Print Assumptions C10_simd_loop_split.
+
+Theorem C10_simd_loop_partition : forall (A B : Type) (lane_f scalar_f : A -> B) (l : list A),
+  (forall x, lane_f x = scalar_f x) -> simd_map lane_f scalar_f l = map scalar_f l.
+Proof. exact (@simd_loop_partition). Qed.
+Print Assumptions C10_simd_loop_partition.
+
+(* one vector-level instance, spelled out: znx_normalize_middle_step_avx::<OVERWRITE> on slices (x, a, carry) zipped *)
+Theorem C10_avx_vec_middle_step : forall (ov : bool) (b lsh : Z) (l : list (Z * Z * Z)),
+  1 <= b <= 63 -> 0 <= lsh < b ->
+  simd_map (fun t => middle_step_avx ov b lsh (fst (fst t)) (snd (fst t)) (snd t))
+           (fun t => middle_step 64 ov b lsh (fst (fst t)) (snd (fst t)) (snd t)) l
+  = map (fun t => middle_step 64 ov b lsh (fst (fst t)) (snd (fst t)) (snd t)) l.
+Proof. exact avx_vec_middle_step. Qed.
+Print Assumptions C10_avx_vec_middle_step.
+
+(* ---- boundary lanes: i64::MIN, i64::MAX, -1, 2^62 ---- *)
+Definition bnd : list Z := [- 2 ^ 63; 2 ^ 63 - 1; -1; 2 ^ 62].
+Example C10_ex_bnd_in_range : forallb (in_rangeb 64) bnd = true.
+Proof. vm_compute. reflexivity. Qed.
+Example C10_ex_digit : map (digit_avx 12) bnd = map (get_digit 64 12) bnd /\ map (digit_avx 12) bnd = [0; -1; -1; 0].
+Proof. vm_compute. split; reflexivity. Qed.
+Example C10_ex_digit_b63 : map (digit_avx 63) bnd = [0; -1; -1; - 2 ^ 62].
+Proof. vm_compute. reflexivity. Qed.
+(* the carry wraps on i64::MAX exactly as the scalar one (x - digit overflows) *)
+Example C10_ex_carry_wrap : carry_avx 2 (2 ^ 63 - 1) (digit_avx 2 (2 ^ 63 - 1)) = - 2 ^ 61
+  /\ get_carry 64 2 (2 ^ 63 - 1) (get_digit 64 2 (2 ^ 63 - 1)) = - 2 ^ 61.
+Proof. vm_compute. split; reflexivity. Qed.
+Example C10_ex_middle : map (fun x => middle_step_avx false 17 5 x (2 ^ 63 - 1) (- 2 ^ 63)) bnd
+                      = map (fun x => middle_step 64 false 17 5 x (2 ^ 63 - 1) (- 2 ^ 63)) bnd.
+Proof. vm_compute. reflexivity. Qed.
+(* x + bias wraps on i64::MAX and 2^62: both backends round them to -1 *)
+Example C10_ex_mul_neg : map (mul_power_of_two_avx (-63)) bnd = [-1; -1; 0; -1]
+  /\ map (mul_power_of_two 64 (-63)) bnd = [-1; -1; 0; -1].
+Proof. vm_compute. split; reflexivity. Qed.
+Example C10_ex_mul_pos : map (mul_power_of_two_avx 63) bnd = map (mul_power_of_two 64 63) bnd.
+Proof. vm_compute. reflexivity. Qed.
+Example C10_ex_simd_tail : forall f : Z -> Z,
+  simd_map f f [1; 2; 3; 4; 5] = [f 1; f 2; f 3; f 4; f 5] /\ simd_map f f [1; 2; 3] = [f 1; f 2; f 3] /\
+  simd_map f f [1] = [f 1] /\ simd_map f f [] = [].
+Proof. intros f. repeat split. Qed.
